@@ -81,7 +81,9 @@ def m_step(st, op):
             _, n, old, v = op
         real, cur, loop = m_chain(st, n)
         if loop:
-            real, cur = n, None
+            # the chain never ends: the operation applies to the name itself, whose current content is a
+            # symbolic ref (never equal to an object id or to "absent")
+            real, cur = n, b"<symref>"
         cond = old is None or (cur if cur is not None else ZERO) == old
         if collides(st, real):
             return ([("refused",)] + ([] if cond else [("ret", False)])), st
@@ -566,8 +568,10 @@ def git_view(acc, names, snap, model, path, work):
             {k.decode(): (nm(v[0]), v[1].decode()) for k, v in want.items()}), rp("case_sequence", "files", list(names), list(path)))
     if isinstance(model.get(HEAD), tuple):
         p2 = git(["symbolic-ref", "HEAD"], cwd=root, check=False, env={"GIT_DIR": root})
-        if p2.stdout.strip() != model[HEAD][1]:
-            acc.violation("files:git-view:symbolic-ref-HEAD-differs", "git says %r, model %r" % (p2.stdout.strip(), model[HEAD][1]),
+        # git 2.39 follows the chain to its last symbolic ref (--recurse is the default and cannot be switched off)
+        last, _, loop = m_chain(model, HEAD)
+        if not loop and p2.stdout.strip() != last:
+            acc.violation("files:git-view:symbolic-ref-HEAD-differs", "git says %r, model %r" % (p2.stdout.strip(), last),
                           rp("case_sequence", "files", list(names), list(path)))
 
 
